@@ -388,3 +388,103 @@ def events_of(trace_path, t):
                 if e["t"] == t:
                     out.append(e)
     return out
+
+
+# ------------------------------------------------------------- generic pipeline
+
+class Pipeline:
+    """execute -> monitor -> triage -> report, shared by the per-property checks.
+
+    cmd      harness sub-command
+    monitor  (module, cfg) of the total verdict monitor
+    pin      f(scenario, init_event) -> scenario restricted to the flagged variant (for re-execution)
+    describe f(scenario, flagged_event) -> short text
+    """
+
+    def __init__(self, prop, cmd, monitor, pin=None, describe=None, extra=(), heap=None, env=None,
+                 per_class=4, max_confirm=48):
+        self.prop, self.cmd, self.mon = prop, cmd, monitor
+        self.pin = pin or (lambda s, init: s)
+        self.describe = describe or (lambda s, e: json.dumps({k: v for k, v in s.items() if k not in ("id", "src")})[:300])
+        self.extra, self.heap, self.env = list(extra), heap, env
+        self.per_class, self.max_confirm = per_class, max_confirm
+
+    def execute(self, vh, wd, scenarios, seed, name):
+        return execute(vh, self.cmd, wd, scenarios, seed, name, extra=self.extra, env=self.env)
+
+    def judge(self, wd, tp):
+        return monitor(wd, self.mon[0], self.mon[1], tp, heap=self.heap)
+
+    def run(self, vh, wd, scenarios, seed):
+        """Returns (Verdict, verdict dict, TLCResult of the monitor, trace path)."""
+        tp = self.execute(vh, wd, scenarios, seed, "all")
+        ini = inits(tp)
+        verdict, vr = self.judge(wd, tp)
+        log(f"[{self.prop}] V: {verdict['cnt']}")
+        out = Verdict(self.prop)
+        by_id = {s["id"]: s for s in scenarios}
+        picked, per = [], {}
+        seen = set()
+        for t, i, cls in verdict["bad"]:
+            sc = ini[t]["sc"]
+            if (sc, t, cls) in seen:
+                continue
+            seen.add((sc, t, cls))
+            if per.setdefault(cls, 0) >= self.per_class or len(picked) >= self.max_confirm:
+                continue
+            per[cls] += 1
+            picked.append((sc, t, i, cls))
+        if picked:
+            confirm = []
+            for n, (sc, t, i, cls) in enumerate(picked):
+                s = dict(self.pin(dict(by_id[sc]), ini[t]))
+                s["orig"] = s.get("orig", sc)
+                s["id"] = n + 1
+                confirm.append((s, cls))
+            tp2 = self.execute(vh, wd, [c[0] for c in confirm], seed, "confirm")
+            in2 = inits(tp2)
+            v2, _ = self.judge(wd, tp2)
+            again = {}
+            for t, i, cls in v2["bad"]:
+                again.setdefault((in2[t]["sc"], cls), (t, i))
+            for s, cls in confirm:
+                if (s["id"], cls) not in again:
+                    raise Infra(f"flagged scenario did not reproduce when run alone ({cls}): {json.dumps(s)[:600]}")
+                t2, i2 = again[(s["id"], cls)]
+                e = [e for e in events_of(tp2, t2) if e["i"] == i2][0]
+                what = self.describe(s, e) + " event=" + json.dumps({k: v for k, v in e.items() if k not in ("t",)})[:400]
+                out.flag(cls, what, {"property": self.prop, "scenario": s, "seed": seed, "class": cls},
+                         f"{cls.replace('@', '_').replace('/', '_')}-{s['orig']}-{s['id']}")
+        return out, verdict, vr, tp
+
+    def replay(self, path, seed):
+        rp = json.load(open(path))
+        vh = build_vh()
+        wd = scratch()
+        tp = self.execute(vh, wd, [rp["scenario"]], rp.get("seed", seed), "replay")
+        print(open(tp).read()[:6000])
+        v, _ = self.judge(wd, tp)
+        if v["bad"]:
+            print(f"VIOLATION property={self.prop} replay={path} class={v['bad'][0][2]}")
+            return 1
+        print("replay: trace accepted")
+        return 0
+
+
+def model_check(wd, module, cfg, what, workers=None, timeout=1800, **kw):
+    return require_clean(tlc(wd, module, cfg, workers=workers or NCPU, extra=["-noGenerateSpecTE"], timeout=timeout, **kw), what)
+
+
+def must_violate(wd, module, cfg, what):
+    r = tlc(wd, module, cfg, workers=1, extra=["-noGenerateSpecTE"], timeout=600)
+    if not r.violation:
+        raise Infra(f"{what}: the as-found model no longer shows its counterexample")
+    return r
+
+
+def emit_scenarios(wd, module, cfg, minimum=1, **kw):
+    r = tlc(wd, module, cfg, workers=kw.pop("workers", 1), extra=["-noGenerateSpecTE"], timeout=kw.pop("timeout", 1800), **kw)
+    out = r.prints("SCENARIO")
+    if len(out) < minimum:
+        raise Infra(f"scenario emission from {module}/{cfg} produced {len(out)} < {minimum}:\n" + r.out[-1500:])
+    return out
